@@ -137,7 +137,8 @@ def _map_parser(opts):
     br = opts.get("brackets", True)
     return L.LLParser(TOKENIZER, synonyms=dict(SYN), productions={
         "E": [("@", "OUTER", ";")],
-        "OUTER": L.MapProds("{" if br else None, "WORD", ":", "VALUE", ",", "}" if br else None, **kw),
+        # (optionally the key symbol and the value symbol are one and the same symbol)
+        "OUTER": L.MapProds("{" if br else None, "WORD", ":", "WORD" if opts.get("same_symbol") else "VALUE", ",", "}" if br else None, **kw),
         "VALUE": [("WORD",), ("LIST",), ("MAP",)],
         "LIST": L.ListProds("[", "VALUE", ",", "]"),
         "MAP": L.MapProds("{", "WORD", ":", "VALUE", ",", "}"),
@@ -274,6 +275,8 @@ def h_list(first: int, trailing: bool, present: bool, sep: int, shard=None) -> N
 def h_map(first: int, trailing: bool, present: bool, sep: int, shard=None) -> None:
     n_max = shard["n_max"]
     vals = [POOL[i] for i in (0, 2, 4, 5, 7, 9)]
+    if shard["opts"].get("same_symbol"):
+        vals = ["a", "bb", "k", "x", "j", "zz"]
     keys = ["k", "j"]
     entries = [(k, v) for k in keys for v in vals]
     reject_unless(-1 <= first < len(entries) and 0 <= sep < len(SEPS))
@@ -339,6 +342,8 @@ def jobs(tier: str) -> List[Job]:
     for i, o in enumerate(MAP_OPTS):
         tag = ("final" if o["afd"] else "nofinal") + ("+opt" if o["optional"] else "")
         js.append(Job(__name__, "h_map", shard={"opts": o, "n_max": 3}, budget_s=2400 if t else 110, label=f"map:{tag}", must_exhaust=True))
+    js.append(Job(__name__, "h_map", shard={"opts": {"afd": True, "optional": None, "same_symbol": True}, "n_max": 3}, budget_s=600 if t else 100,
+                  label="map:key-and-value-same-symbol", must_exhaust=True))
     for afd in (True, False):
         js.append(Job(__name__, "h_map", shard={"opts": {"afd": afd, "optional": None, "brackets": False}, "n_max": 3}, budget_s=2400 if t else 100,
                       label=f"map:nobr+{'final' if afd else 'nofinal'}", must_exhaust=True))
